@@ -156,6 +156,7 @@ var wrapFs = map[string]fsx.Entry{
 	"/w/broken.yaml":       {Kind: "file", Docs: []tv.T{tv.FromGo(map[string]any{"need": "$required"})}},
 	"/w/multi.json":        {Kind: "file", Docs: []tv.T{tv.FromGo(map[string]any{"a": 1}), tv.FromGo(map[string]any{"b": []any{"x", ""}})}},
 	"/w/sub/service.yaml":  {Kind: "file", Docs: []tv.T{tv.FromGo(map[string]any{"name": "sub", "zone": 2})}},
+	"/w/over.yaml":         {Kind: "file", Docs: []tv.T{tv.FromGo(map[string]any{"$parent": "service", "extra": 1})}},
 	"/w/notes.txt":         {Kind: "other"},
 	"/w/conf.ini":          {Kind: "other"},
 }
@@ -301,12 +302,14 @@ func C20(r *Run) {
 		fs["/w/data.csv"] = fsx.Entry{Kind: "other"}
 		fs["/w/sub/keep.txt"] = fsx.Entry{Kind: "other"} // so that sub/../x resolves for the kernel as it does lexically
 		// the same base name in another directory, with other content
+		// a plain name whose parent comes from a $parent directive
+		fs["/w/over."+e3] = fsx.Entry{Kind: "file", Docs: []tv.T{tv.FromGo(map[string]any{"$parent": "app.dev", "over": g.N(9)})}}
 		fs["/w/sub/app."+e1] = fsx.Entry{Kind: "file", Docs: []tv.T{tv.FromGo(map[string]any{"name": "inner", "where": g.N(9)})}}
 		g.NullP = saveN
 		pool := []string{"-v", "--context=prod", "--file=app." + e1, "apply", "-f", "readme.md", "data.csv", "app." + e1, "app.dev." + e2,
 			"app.dev." + g.Pick([]string{"json", "yaml", "toml", "yml", "jsonl", "json-pretty"}), "app." + g.Pick(exts),
 			"two." + g.Pick([]string{"json", "yaml", "yml", "jsonl"}), "nothere.yaml", "app.dev.ini", "--", "-", "app", ".yaml", "x=y.json",
-			"./app." + e1, "sub/../app.dev." + e2, "sub/app." + e1, "sub/app." + e1}
+			"./app." + e1, "sub/../app.dev." + e2, "sub/app." + e1, "sub/app." + e1, "over." + e3, "over." + g.Pick(exts)}
 		if g.P(0.25) {
 			pool = append(pool, "bad."+e3, "bad."+g.Pick([]string{"json", "yaml"}))
 		}
@@ -341,5 +344,5 @@ func C20(r *Run) {
 	wg.Wait()
 	finishEvalFamily(r, "C20", st, sessions,
 		[]string{"OnlyBklFilesChange", "UntouchedByteForByte", "FailingFileMeansNoExec"},
-		"model: every argument vector of length <= MaxArgs over 17 argument kinds (flags, --opt=value, words, non-bkl files, layer files, virtual names of four formats, unsupported extensions, failing and missing layers, ./ spellings, the same base name in two directories) run through the real bklb (as probeb) and kubectl-bkl with a probe program on PATH; driver: random directories (layers in mixed formats) and random vectors of 0-8 arguments over 21+ kinds; substituted files are decoded by the independent decoder of the argument's extension and compared with the specification's evaluation")
+		"model: every argument vector of length <= MaxArgs over 19 argument kinds (flags, --opt=value, words, non-bkl files, layer files, virtual names of four formats, unsupported extensions, failing and missing layers, ./ spellings, the same base name in two directories) run through the real bklb (as probeb) and kubectl-bkl with a probe program on PATH; driver: random directories (layers in mixed formats) and random vectors of 0-8 arguments over 21+ kinds; substituted files are decoded by the independent decoder of the argument's extension and compared with the specification's evaluation")
 }
